@@ -2,7 +2,8 @@
 """Two-way self test of the checkers, on scratch worktrees of /repo (never /repo itself):
   selftest/mutants/*.diff, seeded/*/patch.diff  -> at least one of the owning checks must report a VIOLATION
   selftest/preserving/*.diff                    -> every owning check must stay silent (exit 0)
-usage: tools/selftest.py [-j N] [pattern]"""
+  --cross: every mutant/seed applied on top of every preserving refactoring of the same file (where the patches compose) must still fire
+usage: tools/selftest.py [-j N] [--cross] [pattern]"""
 import glob, json, os, re, subprocess, sys, tempfile, shutil
 from concurrent.futures import ThreadPoolExecutor
 
@@ -40,11 +41,31 @@ def cases(pattern):
     return [c for c in out if pattern in c[0]]
 
 
+def files_of(patch):
+    return {l.split()[2][2:] for l in open(patch, errors="replace") if l.startswith("diff --git")}
+
+
+def cross_cases(pattern):
+    """seeded change / mutant applied ON TOP OF a behaviour-preserving variant that touches the same file: the owning checks must
+    still report it (detection has to be invariant under refactoring).  Pairs whose patches do not compose are skipped."""
+    base = cases("")
+    firing = [c for c in base if c[3]]
+    quiet = [c for c in base if not c[3] and (c[0].startswith("ref_") or c[0].startswith("all_"))]
+    out = []
+    for n1, p1, ch1, _ in firing:
+        for n2, p2, _, _ in quiet:
+            if files_of(p1) & files_of(p2):
+                out.append(("%s+%s" % (n1, n2), [p2, p1], ch1, True))
+    return [c for c in out if pattern in c[0]]
+
+
 def run_case(wt, case):
     name, patch, checks, must_fire = case
-    r = subprocess.run(["git", "-C", wt, "apply", patch], capture_output=True, text=True)
-    if r.returncode != 0:
-        return name, "PATCH-DOES-NOT-APPLY", r.stderr.strip()[:200]
+    for i_, pt in enumerate(patch if isinstance(patch, list) else [patch]):
+        r = subprocess.run(["git", "-C", wt, "apply", pt], capture_output=True, text=True)
+        if r.returncode != 0:
+            subprocess.run(["git", "-C", wt, "checkout", "--", "."], capture_output=True)
+            return name, ("skip" if i_ else "PATCH-DOES-NOT-APPLY"), r.stderr.strip()[:100].replace("\n", " ")
     try:
         fired, details = [], []
         for c in checks:
@@ -68,7 +89,10 @@ def main():
     jobs = 4
     if args and args[0] == "-j":
         jobs = int(args[1]); args = args[2:]
-    cs = cases(args[0] if args else "")
+    cross = bool(args and args[0] == "--cross")
+    if cross:
+        args = args[1:]
+    cs = (cross_cases if cross else cases)(args[0] if args else "")
     base = tempfile.mkdtemp(prefix="verif_selftest_")
     wts = []
     try:
@@ -83,8 +107,9 @@ def main():
         with ThreadPoolExecutor(max_workers=jobs) as ex:
             for res in ex.map(work, range(jobs)):
                 for name, verdict, det in res:
-                    print("%-34s %-12s %s" % (name, verdict, det))
-                    if verdict != "ok":
+                    if verdict != "skip":
+                        print("%-34s %-12s %s" % (name, verdict, det), flush=True)
+                    if verdict not in ("ok", "skip"):
                         bad += 1
         print("selftest: %d cases, %d not ok" % (len(cs), bad))
         return 1 if bad else 0
